@@ -127,7 +127,7 @@ def events():
     return evs
 
 
-SUBMENU_NAMES = ("al", "l", "dyn", "tls")
+SUBMENU_NAMES = ("l", "dyn", "tls")
 
 
 def submenu():
@@ -366,6 +366,32 @@ def final_check(ctx, w, hist):
     if runs > 1 + w.dels:
         bad("dyn-default-twice", "_dyn_default ran %d times on the acting "
             "instance (%d deletions)" % (runs, w.dels))
+    # instance traits added to two instances under the same name must stay
+    # separate definitions: handlers of one never hear about the other
+    if getattr(w, "added_zz", False):
+        sib = w.K()
+        sib.add_trait("zz", List(Str))
+        sib_log, act_log = [], []
+        sib.on_trait_change(lambda: sib_log.append(1), "zz_items")
+        sib.on_trait_change(lambda: sib_log.append(1), "zz")
+        w.a.on_trait_change(lambda: act_log.append(1), "zz_items")
+        ctx.tr()
+        try:
+            w.a.zz.append("q")
+            if sib_log:
+                bad("instance-trait-shared", "mutating the acting "
+                    "instance's added list trait called a handler "
+                    "registered on another instance's trait of that name")
+            n = len(act_log)
+            sib.zz.append("r")
+            sib.zz = ["s"]
+            if len(act_log) != n:
+                bad("instance-trait-shared", "changing another instance's "
+                    "added trait called the acting instance's handler")
+            if list(w.a.zz)[-1:] != ["q"]:
+                bad("instance-trait-shared", "values of added traits mixed")
+        except Exception as exc:
+            bad("instance-trait-probe-raises", "probe raised %r" % (exc,))
     # no container shared between instances
     seen = {}
     for label, o in objs:
